@@ -7,11 +7,11 @@ from vlib import *
 GEN_MC = {
     "C01": {"quick": [("ref_n2", "MCRef.tla", "MCRef_n2.cfg"), ("gen_quick", "MCGenerator.tla", "MCGenerator_quick.cfg")],
             "thorough": [("ref_n2", "MCRef.tla", "MCRef_n2.cfg"), ("ref_n3", "MCRef.tla", "MCRef_n3.cfg"), ("ref_n3_l6", "MCRef.tla", "MCRef_n3_l6.cfg"),
-                         ("gen_k3", "MCGenerator.tla", "MCGenerator_k3.cfg")]},
+                         ("gen_k3", "MCGenerator.tla", "MCGenerator_k3.cfg"), ("gen_n4l6_sim", "MCGenerator.tla", "MCGenerator_n4l6_sim.cfg", "num=40000 -depth 150")]},
     "C03": {"quick": [("gen_quick", "MCGenerator.tla", "MCGenerator_quick.cfg")],
-            "thorough": [("gen_k3", "MCGenerator.tla", "MCGenerator_k3.cfg")]},
+            "thorough": [("gen_k3", "MCGenerator.tla", "MCGenerator_k3.cfg"), ("gen_n4l6_sim", "MCGenerator.tla", "MCGenerator_n4l6_sim.cfg", "num=40000 -depth 150")]},
     "C12": {"quick": [("gen_reset", "MCGenerator.tla", "MCGenerator_reset.cfg"), ("gen_hint", "MCGenerator.tla", "MCGenerator_hint.cfg")],
-            "thorough": [("gen_reset", "MCGenerator.tla", "MCGenerator_reset.cfg"), ("gen_hint", "MCGenerator.tla", "MCGenerator_hint.cfg")]},
+            "thorough": [("gen_reset", "MCGenerator.tla", "MCGenerator_reset.cfg"), ("gen_hint", "MCGenerator.tla", "MCGenerator_hint.cfg"), ("gen_n4l6_sim", "MCGenerator.tla", "MCGenerator_n4l6_sim.cfg", "num=40000 -depth 150")]},
     "C18": {"quick": [("stream", "MCStream.tla", "MCStream.cfg")], "thorough": [("stream", "MCStream.tla", "MCStream.cfg")]},
     "C13": {"quick": [("zeros", "MCZeros.tla", "MCZeros.cfg"), ("gen_hint", "MCGenerator.tla", "MCGenerator_hint.cfg")],
             "thorough": [("zeros", "MCZeros.tla", "MCZeros.cfg"), ("gen_hint", "MCGenerator.tla", "MCGenerator_hint.cfg")]},
@@ -40,8 +40,10 @@ def check_gen(pid, tier):
     binp = build_harness()
     out = fresh_dir("tr_" + pid)
     stats = run_harness(binp, ["gen", GEN_MODE[pid], "--seed", str(seed()), "--tier", tier, "--out", out, "--shards", str(TV_PAR)])
-    for name, mod, cfg in GEN_MC[pid][tier]:
-        v.add_mc(run_mc(name, mod, cfg, required_actions=GEN_REQUIRED.get(mod) if tier == "thorough" else None))
+    for job in GEN_MC[pid][tier]:
+        name, mod, cfg = job[:3]
+        sim = job[3] if len(job) > 3 else None
+        v.add_mc(run_mc(name, mod, cfg, simulate=sim, required_actions=None if sim else (GEN_REQUIRED.get(mod) if tier == "thorough" else None)))
     files = sorted(glob.glob(os.path.join(out, "*.ndjson")))
     res = run_tv("TraceGen.tla", "TraceGen.cfg", files, timeout=3000)
     v.add_tv("TraceGen:" + GEN_MODE[pid], res)
